@@ -1,4 +1,4 @@
 SPECIFICATION Spec
-CONSTANTS MaxFull = 4 MaxLen = 4
+CONSTANTS MaxFull = 4
 INVARIANTS FoldAgrees StoredAtIndex ScalarStored AliasResolves SpellingIgnored StartRequired ErrorIsFinal Bounded
 CHECK_DEADLOCK FALSE
